@@ -288,7 +288,7 @@ def process_template(tmpl_text, repo=None):
         directives = []
         cur = None
         for b in block:
-            dm = re.match(r'^\s*//@(subst|sig|loopbody|loopend|afterloop|loop|after|before|drop_line)\b\s*(.*)$', b)
+            dm = re.match(r'^\s*//@(subst|sig|bodystart|loopbody|loopend|afterloop|loop|after|before|drop_line)\b\s*(.*)$', b)
             if dm:
                 cur = {"kind": dm.group(1), "arg": dm.group(2).strip(), "payload": []}
                 directives.append(cur)
@@ -349,6 +349,10 @@ def process_template(tmpl_text, repo=None):
                     raise ExtractError(f"loop {k} not found in {kv['fn']} ({len(loops)} loops)")
                 inserts.append((loops[k - 1][1], "\n" + payload + "\n"))
                 entry["injections"].append({"where": f"loop {k}", "text": payload})
+            elif d["kind"] == "bodystart":
+                bo = find_body_open(t1, 0)
+                inserts.append((bo + 1, "\n" + payload + "\n"))
+                entry["injections"].append({"where": "start of the function body", "text": payload})
             elif d["kind"] in ("loopbody", "loopend", "afterloop"):
                 # structural anchors (loop ordinal, not statement text): ghost text at the start /
                 # end of the K-th loop's body, or right after the loop.  They survive any change
